@@ -72,5 +72,103 @@ func lalr1Cases(c *Ctx, prec bool) {
 		c.Count(fmt.Sprintf("inputs=%d", len(g.Inputs)))
 		line := fmt.Sprintf("lalr1 %s %s %d %d %s %d %d", g.String(), tablesStr(t, g.NT), t.SR, t.RR, b2s(hasErr), lg.ExpectSR, lg.ExpectRR)
 		c.Case(line, "ok", key)
+		if prec && i%6 == 0 {
+			c04FrontEnd(c, g, t.SR, t.RR)
+		}
 	}
+}
+
+// c04FrontEnd ties the .tm front end to the precedence data the tables are built from: the grammar is
+// rendered as text (with %left/%right/%nonassoc lines and %prec markers, also on empty rules), compiled by
+// the real compiler.Compile, and the compiled rules' Precedence and the Prec groups are compared with the
+// source (independent oracle); the compiled tables then go through the same canonical LALR(1) comparison.
+func c04FrontEnd(c *Ctx, g *Gram, sr, rr int) {
+	g2 := *g
+	g2.Rules = append([]GRule(nil), g.Rules...)
+	// put %prec on an empty rule now and then
+	for i := range g2.Rules {
+		if len(g2.Rules[i].RHS) == 0 && g2.NT > 1 && c.Rng.Intn(2) == 0 {
+			g2.Rules[i].Prec = 1 + c.Rng.Intn(g2.NT-1)
+		}
+	}
+	o := TMOpts{ExpectSR: 0, ExpectRR: 0}
+	gp := compileTM("p", g2.TM("p", o), o)
+	if gp.Err != nil && gp.G == nil {
+		// conflicts are reported as errors by the front end: retry with the expected counts
+		t0, _, pan := compileLalr(g2.Lalr(), lalr.Options{})
+		if pan != "" {
+			return
+		}
+		o.ExpectSR, o.ExpectRR = t0.SR, t0.RR
+		gp = compileTM("p", g2.TM("p", o), o)
+	}
+	if gp.Err != nil || gp.G == nil || gp.G.Parser == nil {
+		c.Count("front end: rejected " + firstWords(errSummary(gp.Err), 4))
+		return
+	}
+	c.Count("front end: compiled")
+	p := gp.G.Parser
+	desc := g2.Pretty()
+	term := func(t int) int { return gp.TermID("'" + g2.SymName(t) + "'") }
+	// rules in compiled order = grouped by nonterminal in order of first appearance
+	var order []int
+	seen := map[int]bool{}
+	for _, r := range g2.Rules {
+		if !seen[r.LHS] {
+			seen[r.LHS] = true
+			order = append(order, r.LHS)
+		}
+	}
+	var src []GRule
+	for _, lhs := range order {
+		for _, r := range g2.Rules {
+			if r.LHS == lhs {
+				src = append(src, r)
+			}
+		}
+	}
+	if len(src) != len(p.Rules) {
+		// the front end collapses duplicate alternatives of a nonterminal: drop later duplicates
+		var dd []GRule
+		seenR := map[string]bool{}
+		for _, r := range src {
+			k := fmt.Sprint(r.LHS, r.RHS)
+			if !seenR[k] {
+				seenR[k] = true
+				dd = append(dd, r)
+			}
+		}
+		if len(dd) != len(src) {
+			c.Count("front end: duplicate alternatives (rule-level comparison skipped)")
+			return
+		}
+	}
+	if len(src) != len(p.Rules) {
+		c.Violate(fmt.Sprintf("front end produced %d rules for %d source rules of a plain grammar", len(p.Rules), len(src)), desc)
+		return
+	}
+	for i, r := range src {
+		want := 0
+		if r.Prec != 0 {
+			want = term(r.Prec)
+		}
+		if int(p.Rules[i].Precedence) != want {
+			c.Violate(fmt.Sprintf("rule %d (%s): %%prec terminal of the compiled rule is symbol %d, the source says %d", i, g2.SymName(r.LHS), int(p.Rules[i].Precedence), want), desc)
+		}
+	}
+	if len(p.Prec) != len(g2.Prec) {
+		c.Violate(fmt.Sprintf("front end kept %d precedence groups of %d", len(p.Prec), len(g2.Prec)), desc)
+	} else {
+		for i, pg := range g2.Prec {
+			ok := int(p.Prec[i].Associativity) == pg.Assoc && len(p.Prec[i].Terminals) == len(pg.Terms)
+			for k := 0; ok && k < len(pg.Terms); k++ {
+				ok = int(p.Prec[i].Terminals[k]) == term(pg.Terms[k])
+			}
+			if !ok {
+				c.Violate(fmt.Sprintf("precedence group %d differs between source and compiled grammar", i), desc)
+			}
+		}
+	}
+	t := p.Tables
+	c.Case(fmt.Sprintf("lalr1 %s %s %d %d 0 %d %d", gp.ProtoGrammar(), tablesStr(t, p.NumTerminals), t.SR, t.RR, o.ExpectSR, o.ExpectRR), "ok", "")
 }
